@@ -138,7 +138,9 @@ func (fr *Frame) execInstr(in ssa.Instruction, st *State, alive *Term) *Term {
 		fr.execTypeAssert(x, alive)
 	case *ssa.FieldAddr:
 		base := fr.val(x.X)
-		fr.safety(x, "nil-deref", fr.ordOf(x, "field:"+fieldName(x)), alive, Not(Eq(base, IntLit(0))))
+		if _, nested := x.X.(*ssa.FieldAddr); !nested {
+			fr.safety(x, "nil-deref", fr.ordOf(x, "field:"+fieldName(x)), alive, Not(Eq(base, IntLit(0))))
+		}
 		stt := x.X.Type().Underlying().(*types.Pointer).Elem()
 		ft := stt.Underlying().(*types.Struct).Field(x.Field).Type()
 		if _, nested := ft.Underlying().(*types.Struct); nested {
@@ -307,6 +309,9 @@ func (fr *Frame) execUnOp(x *ssa.UnOp, st *State, alive *Term) {
 			return
 		}
 		fr.setVal(x, fr.load(x.X, x.Type(), st, alive, x))
+		if fr.vals[x].Sort == SSlice {
+			fr.vc.assume(sliceWF(fr.vals[x]))
+		}
 	default:
 		unsupported("unary operator %s", x.Op)
 	}
@@ -510,6 +515,9 @@ func (fr *Frame) makeInterface(from, to types.Type, v *Term, st *State) *Term {
 	if g.sortOf(to) != SVal {
 		// non-empty interface (error, io.Writer, ...): references stay references
 		if v.Sort == SInt {
+			if _, isPtr := from.Underlying().(*types.Pointer); isPtr {
+				fr.vc.assume(Implies(Not(Eq(v, IntLit(0))), Eq(App("dyntype", SInt, v), IntLit(int64(g.typeID(from))))))
+			}
 			return v
 		}
 		n := g.autoFun("box_"+typeShort(from), SInt, v.Sort)
@@ -611,10 +619,15 @@ func (fr *Frame) execTypeAssert(x *ssa.TypeAssert, alive *Term) {
 	if v.Sort == SVal {
 		okc, out = fr.typeTest(v, x.AssertedType)
 	} else {
-		// assertion on a non-empty interface value (e.g. err.(*net.AddrError)): opaque
-		okc = fr.vc.fresh("assertok", SBool)
-		out = fr.vc.fresh("asserted", g.sortOf(x.AssertedType))
-		out.Ty = x.AssertedType
+		// assertion on a non-empty interface value (e.g. err.(*net.AddrError)): by dynamic type tag
+		if _, isPtr := x.AssertedType.Underlying().(*types.Pointer); isPtr && v.Sort == SInt {
+			okc = And(Not(Eq(v, IntLit(0))), Eq(App("dyntype", SInt, v), IntLit(int64(g.typeID(x.AssertedType)))))
+			out = g.withType(v, x.AssertedType)
+		} else {
+			okc = fr.vc.fresh("assertok", SBool)
+			out = fr.vc.fresh("asserted", g.sortOf(x.AssertedType))
+			out.Ty = x.AssertedType
+		}
 	}
 	if x.CommaOk {
 		zero := g.zero(x.AssertedType)
